@@ -223,6 +223,18 @@ ExportImport_G(s, e) == [ valid |-> TRUE ]
 ExportImport_E(s, e) == s
 ExportImport_R(s, e) == [same |-> TRUE]
 
+(* gRPC queries of the bridge part of x/opchild (keeper/querier.go); validator queries are in ValSet.tla *)
+Query_G(s, e) ==
+  [ found |-> CASE e.q = "BaseDenom"  -> Has(s.pairs, e.denom)         \* ErrNonL1Token otherwise
+                [] e.q = "BridgeInfo" -> s.bridgeInfo.set             \* NotFound until an executor has set it
+                [] OTHER              -> TRUE ]
+Query_R(s, e) ==
+  CASE e.q = "NextL1Sequence" -> [v |-> s.seqL1]
+    [] e.q = "NextL2Sequence" -> [v |-> s.seqL2]
+    [] e.q = "BaseDenom"      -> [v |-> s.pairs[e.denom]]
+    [] e.q = "BridgeInfo"     -> [id |-> s.bridgeInfo.id, addr |-> s.bridgeInfo.addr, chain |-> s.bridgeInfo.chain, client |-> s.bridgeInfo.client, oracle |-> s.bridgeInfo.oracle]
+    [] e.q = "Params"         -> s.params
+
 ----------------------------------------------------------------------------
 Guards(s, e) ==
   CASE e.type = "FinalizeTokenDeposit"    -> FinalizeTokenDeposit_G(s, e)
@@ -233,6 +245,7 @@ Guards(s, e) ==
     [] e.type = "BankSend"                -> BankSend_G(s, e)
     [] e.type = "ExecuteMessages"         -> ExecuteMessages_G(s, e)
     [] e.type = "ExportImport"            -> ExportImport_G(s, e)
+    [] e.type = "Query"                   -> Query_G(s, e)
 Effect(s, e) ==
   CASE e.type = "FinalizeTokenDeposit"    -> FinalizeTokenDeposit_E(s, e)
     [] e.type = "InitiateTokenWithdrawal" -> InitiateTokenWithdrawal_E(s, e)
@@ -242,6 +255,7 @@ Effect(s, e) ==
     [] e.type = "BankSend"                -> BankSend_E(s, e)
     [] e.type = "ExecuteMessages"         -> ExecuteMessages_E(s, e)
     [] e.type = "ExportImport"            -> ExportImport_E(s, e)
+    [] e.type = "Query"                   -> s
 Resp(s, e) ==
   CASE e.type = "FinalizeTokenDeposit"    -> FinalizeTokenDeposit_R(s, e)
     [] e.type = "InitiateTokenWithdrawal" -> InitiateTokenWithdrawal_R(s, e)
@@ -251,6 +265,7 @@ Resp(s, e) ==
     [] e.type = "BankSend"                -> BankSend_R(s, e)
     [] e.type = "ExecuteMessages"         -> ExecuteMessages_R(s, e)
     [] e.type = "ExportImport"            -> ExportImport_R(s, e)
+    [] e.type = "Query"                   -> Query_R(s, e)
 
 NoResp == [none |-> TRUE]
 Step(s, e) ==
